@@ -262,6 +262,11 @@ func raceKey(lines []string) string {
 			want = true
 			continue
 		}
+		if t == "" {
+			// end of that access's stack: a frame further down belongs to something else
+			want = false
+			continue
+		}
 		if want && strings.HasPrefix(t, "github.com/segmentio/encoding/") && !strings.Contains(t, "verifshim") {
 			f := t
 			if i := strings.LastIndex(f, "("); i > 0 {
@@ -583,6 +588,12 @@ func main() {
 				res := runChunk(j.id, j.from, j.to, false)
 				if res.crashed {
 					class, key, detail := crashClass(res.exit, res.stderr)
+					if class == "data-race" && key == "race:" {
+						// neither access has a frame of the library under test: the harness
+						// raced with itself, which says nothing about the property
+						fmt.Fprintf(os.Stderr, "%s\n", detail)
+						die("data race between two accesses of the harness itself (run %d): harness defect", res.crashIdx)
+					}
 					mu.Lock()
 					ck := class + "|" + key
 					agg.ViolCount[ck]++
